@@ -224,8 +224,11 @@ class Prop:
             'array-item': ('A', [('M', [1]), ('A', [('M', [2])])]),
             'root-value': ('M', [1, 2]),
             'nested': ('O', [], None, [(None, 'a', ('O', [4], 1, [(3, None, ('A', [('L', 'int', 2, [])]))]))]),
+            # inheritance below an own property of an object that inherits itself
+            'allof-in-allof': ('O', [4], None, [(None, 'a', ('O', [5], None, []))]),
+            'allof-in-allof-array': ('O', [4], None, [(None, 'a', ('A', [('O', [5], 2, [])]))]),
         }
-        bodies = {1: L, 2: L, 3: ('L', 'str', None, []), 4: ('O', [], None, [(None, 'z', L)])}
+        bodies = {1: L, 2: L, 3: ('L', 'str', None, []), 4: ('O', [], None, [(None, 'z', L)]), 5: ('O', [], None, [(None, 'y', L)])}
         for nm, root in pos.items():
             need = sorted(set(refs(root)))
             for r in range(len(need) + 1):
